@@ -63,6 +63,7 @@ var smallInputs = map[string][]string{
 		`x`, ``, `<`, `<a`, `<!--`, `<p title="&quot;a&quot;">&lt;&amp;&gt; &#39; &copy;</p>`,
 		// typed raw elements followed by untyped ones that carry other attributes (the type of one element says nothing about the next)
 		"<style type=\"text/css\">a { b : c }</style><script nonce=\"n1\">var t = { // table\n k : 1 };\nvar x = t.k; // setup\nif (x) { // then\n y( x )\n}\nfunction g(a){\n // double\n return a*2\n}\n</script><script type=\"text/template\"><i> raw </i></script><style media=\"screen\" id=\"s2\">/* c */ p > b { margin : 0px 0px }</style><script id=\"s3\" data-x=\"1\">z = 2 // two\nw = z * 2</script>",
+		"<script type=\"module\">import { a } from \"./a.js\" ; export const b = a + 1 ;</script><script type=\"Module\" async>import(\"./c.js\").then( m => m.run( ) ) ; export default 1</script><script type=\"importmap\">{ \"imports\" : { \"a\" : \"./a.js\" } }</script>",
 		"<script type=\"application/ld+json\">{ \"a\" : 1.0 }</script><script async id=\"a1\">var q = [ 1 , 2 ] // list\nq.push( 3 )</script><style type=\"text/css\" media=\"all\">a{b:c}</style>",
 	},
 	"text/css": {
@@ -78,6 +79,9 @@ var smallInputs = map[string][]string{
 		`a ? b : c; x = y ?? z; o?.p?.[k]?.(1); label: for(;;){ break label } try { t() } catch { } finally { u() } switch (v) { case 1: w(); default: }`,
 		"a=1;/* trailing */b=`t${a}`;c=/re/g;d='s';// line comment\n/*! keep */",
 		`var`, `(`, `{`, ``, `a +`, `"unterminated`, `/re`, "`tpl", `function(`, `1.0.toFixed()`,
+		// module syntax with string names, hexadecimal and other literal forms at their boundaries
+		"var x = 1 ; export { x as \"it's \\\"q\\\"\" , x as \"a\\nb\" , x as \"plain name\" } ; import { \"it's \\\"q\\\"\" as y , \"a b\" as z } from \"./m.js\" ; export * as \"all of it\" from './n.js'",
+		"m = 0xFFFFFFFFFF ; n = 0xffffffffff ; o = 0XABCDEF0123 ; p = 0b1111111111111111111111111111111111111111 ; q = 0o7777777777777 ; r = 0xFFFFFFFFFFFFF ; s = 1_000_000 ; t = .5e-7 ; u = 0xFn",
 	},
 	"application/json": {
 		`{ "a" : [ 1.0 , 2e3 , -0.50 , true , null ] , "b" : { "c" : "d\n" } }`, `[ ]`, `  "str"  `, `1.500`, `{"a":{"b":{"c":[[[1,2,[3]]]]}}}`,
